@@ -38,6 +38,10 @@ def gen_case(rng):
     if multi:
         files.update({"aa/u1.txt": "x", "aa/in/u4.txt": "x", "bb/u2.txt": "x", "cc/u3.txt": "x", "top_u.txt": "x"})
         dirs.update({"aa", "aa/in", "bb", "cc"})
+        if rng.random() < 0.5:
+            # names that sort between a directory and what is inside it ("aa" < "aa-old" < "aa.zip" < "aa/in")
+            files.update({"aa-old/o1.txt": "x", "aa.zip": "x", "aa in.txt": "x", "zz_last.txt": "x"})
+            dirs.update({"aa-old"})
     files = {k: v for k, v in files.items() if not any(k.startswith(d + "/") and False for d in dirs)}
     # a file cannot also be a directory
     files = {k: v for k, v in files.items() if k not in dirs and not any(x.startswith(k + "/") for x in list(files) + list(dirs))}
@@ -103,7 +107,8 @@ def gen_case(rng):
     if multi:
         # several path arguments: distinct directories, nested ones, the root together with a directory, repeats
         a, b = rng.sample(["aa", "bb", "cc"], 2)
-        case["path_args"] = rng.choice([[a, b], [a, b], [b, a], [a, b, a], [".", a], [a, "."], [a, a], ["aa", "aa/in"], ["aa/in", "aa"]])
+        case["path_args"] = rng.choice([[a, b], [a, b], [b, a], [a, b, a], [".", a], [a, "."], [a, a], ["aa", "aa/in"], ["aa/in", "aa"],
+                                        [".", "aa/in"], ["aa/in", "."], [".", "aa/in"]])
     elif r < 0.15 and dirs:
         case["path_args"] = [rng.choice(sorted(dirs))]
     elif r < 0.22 and ".pytask/data_catalogs/default/abc.pkl" in files:
